@@ -151,9 +151,20 @@ def check_case(ctx, case):
                               variant={kk: (int(vv) if hasattr(vv, "name") else vv) for kk, vv in v.items()})
                     dexp = float(np.linalg.det(H.F0) * np.exp(trint[k]))
                     drel = abs(float(np.linalg.det(F)) - dexp) / abs(dexp)
-                    okD = drel <= 3 * bound
+                    # first-order sensitivity of det: d(det)/det = tr(F^-1 dF), so an admissible error of `bound` (relative,
+                    # max-norm) in F moves det F by up to bound * max|F| * sum|F^-1| (= 3 * bound near the identity);
+                    # for a nearly singular F the determinant law is only decidable to that conditioning
+                    try:
+                        sens = float(np.abs(Fref[k]).max() * np.abs(np.linalg.inv(Fref[k])).sum())
+                    except np.linalg.LinAlgError:
+                        sens = float("inf")
+                    tolD = bound * max(3.0, 1.1 * sens)
+                    if not tolD <= 0.5:
+                        ctx.count("detF_law_skipped_illconditioned_F")
+                        continue
+                    okD = drel <= tolD
                     if okD:
-                        ctx.extreme("detF_relerr/bound", drel / (3 * bound))
+                        ctx.extreme("detF_relerr/bound", drel / tolD)
                     ctx.check("detF_equals_exp_int_trL", okD, case, update=k, rel=drel,
                               key=("detF_equals_exp_int_trL" if okF else "F_equals_reference/adaptive_steps_skip_variation_of_L"),
                               explained=(None if okF else state_expl))
@@ -205,6 +216,42 @@ def check_case(ctx, case):
         except Exception as e:
             ctx.check("update_all_completes", False, case, key=f"raises/{type(e).__name__}",
                       exc=f"{type(e).__name__}: {str(e)[:200]}", order=order)
+    # a mineral whose phase is not listed in the assemblage: the update is either refused (the present behaviour: the
+    # solver set-up raises) or, if an F is returned, it is the same solution of dF/dt = L.F as for any other mineral
+    params1 = pydrex.core.DefaultParams().as_dict()
+    params1["phase_assemblage"], params1["phase_fractions"] = (P.olivine,), (1.0,)
+    for route in ("alone", "last_in_update_all"):
+        def drive_omitted(**kw):
+            en = mk(P.enstatite)
+            ms = [en] if route == "alone" else [mk(P.olivine), en]
+            F_ = H.F0.copy()
+            with warnings.catch_warnings():
+                warnings.simplefilter("ignore")
+                for (a_, b_) in zip(H.ts[:-1], H.ts[1:]):
+                    kw_ = {k_: (abs(b_ - a_) / 25 if v_ == "cap" else v_) for k_, v_ in kw.items()}
+                    if route == "alone":
+                        F_ = en.update_orientations(params1, F_, H.Lfun, (a_, b_, H.posfun), **kw_)
+                    else:
+                        F_ = pydrex.minerals.update_all(ms, params1, F_, H.Lfun, (a_, b_, H.posfun), **kw_)
+            return F_
+        try:
+            F = drive_omitted()
+        except Exception:
+            ctx.count("omitted_phase_update_refused")
+            continue
+        ctx.count("omitted_phase_update_returned_F")
+        bound = 5e-3 + 1e-3 * (N + 2 * eps[N - 1])
+        ok = isinstance(F, np.ndarray) and F.shape == (3, 3) and float(np.abs(F - Fref[N]).max() / np.abs(Fref[N]).max()) <= bound
+        keyo, explo = "omitted_phase_F_equals_reference", None
+        if not ok and varying and isinstance(F, np.ndarray) and F.shape == (3, 3):
+            keyo = "F_equals_reference/adaptive_steps_skip_variation_of_L"
+            try:
+                Fb = drive_omitted(max_step="cap")
+                explo = bool(float(np.abs(Fb - Fref[N]).max() / np.abs(Fref[N]).max()) <= bound)
+            except Exception:
+                explo = False
+        ctx.check("omitted_phase_F_equals_reference", bool(ok), case, key=keyo, explained=explo, route=route,
+                  got=(np.asarray(F).round(6).tolist() if isinstance(F, np.ndarray) else str(type(F))))
     if len(ctx.samples) < 3:
         ctx.sample(case, F_end=Fref[-1].round(6).tolist(), strain=eps[-1] if eps else 0)
 
